@@ -30,7 +30,8 @@ VARIANTS = [
          [(SL, 'INT = r"[-+]?[0-9]+"', 'INT = r"[0-9]+"')],
          ("C01.1", "number-format:int"), P),
     fire("c01-int-before-number",
-         [(SL, '    NUMBER = r"[-+]?[0-9]*\\.[0-9]+([eE][-+]?[0-9]+)?"\n    INT = r"[-+]?[0-9]+"\n', '    INT = r"[-+]?[0-9]+"\n    NUMBER = r"[-+]?[0-9]*\\.[0-9]+([eE][-+]?[0-9]+)?"\n')],
+         [(SL, '    INT = r"[-+]?[0-9]+"\n', ''),
+          (SL, '    # NUMBER comes before DOTIDENTIFIER so that .5 is a number, not a dot\n', '    INT = r"[-+]?[0-9]+"\n')],
          ("C01.1", "float:priority"), P),
     fire("c01-number-exponent-needs-sign",
          [(SL, 'NUMBER = r"[-+]?[0-9]*\\.[0-9]+([eE][-+]?[0-9]+)?"', 'NUMBER = r"[-+]?[0-9]*\\.[0-9]+([eE][0-9]+)?"')],
@@ -48,7 +49,7 @@ VARIANTS = [
          [(GE, '    if statement.subcircuit:\n        output += "subcircuit "\n        if statement.iterations != 1:\n            output += generate_jaqal_value(statement.iterations) + " "\n', "")],
          ("C01.3", "BlockStatement.subcircuit"), P),
     fire("c01-slice-step-dropped",
-         [(GE, '    if s.step:\n        return "%s:%s:%s" % (\n            generate_jaqal_value(s.start or 0),\n            generate_jaqal_value(s.stop),\n            generate_jaqal_value(s.step),\n        )\n    else:\n        return',
+         [(GE, '    if s.step:\n        return "%s:%s:%s" % (\n            generate_jaqal_value(s.start or 0),\n            stop,\n            generate_jaqal_value(s.step),\n        )\n    else:\n        return',
            '    if False:\n        pass\n    else:\n        return')],
          ("C01.3", "slice.step"), P),
     fire("c01-loop-count-dropped",
